@@ -725,6 +725,34 @@ pub fn run_into(run: &mut Run, prop: &'static str, thorough: bool) -> Option<Str
 /// Development entry point: `hdmc CONC` with HDMC_CONC_PROP=<ID> (configs of that property, N=2 to fixpoint only).
 pub fn conc_cli() -> i32 {
     std::panic::set_hook(Box::new(|_| {}));
+    if let Ok(w) = std::env::var("HDMC_DEBUG_AUDIT") {
+        // HDMC_DEBUG_AUDIT="<prop>|<config>|<witness history>": find the representative with the same
+        // fingerprint and print the successors whose canonical texts differ
+        let parts: Vec<&str> = w.split('|').collect();
+        let prop: &'static str = Box::leak(parts[0].to_string().into_boxed_str());
+        let cfg = configs(prop, false).into_iter().find(|c| c.name == parts[1]).expect("config");
+        let hist: Vec<Ev> = parts[2].split(' ').filter_map(Ev::parse).collect();
+        let mut o = opts_for(prop, false);
+        o.collect_states = true;
+        o.audit_every = u64::MAX;
+        let out = bfs::explore(&cfg, &o);
+        let fp = bfs::fp_of(&bfs::canon(&Sim::replay(&cfg, &hist)));
+        let rep = out.reps.iter().find(|(f, _)| *f == fp).map(|(_, h)| h.clone()).expect("representative");
+        println!("witness: {}\nrepresentative: {}", hist_text(&hist), hist_text(&rep));
+        let en = Sim::replay(&cfg, &hist).enabled();
+        for e in en {
+            let mut a = Sim::replay(&cfg, &hist);
+            a.apply(e);
+            let mut b = Sim::replay(&cfg, &rep);
+            b.apply(e);
+            let (ca, cb) = (bfs::canon(&a), bfs::canon(&b));
+            if ca != cb {
+                println!("--- after {}:\n  W: {}\n  R: {}", e.text(), ca, cb);
+                break;
+            }
+        }
+        return 0;
+    }
     if let Ok(h) = std::env::var("HDMC_DEBUG_HIST") {
         let mut c = SimConfig::base("dbg");
         c.idle_timeout = Some(1);
